@@ -89,6 +89,10 @@ func ChildMain(args []string) int {
 		fmt.Fprintf(os.Stdout, "SAVE-MSG %v\n", err)
 		return 4
 	}
-	os.Stdout.WriteString("SAVE-END ok\n")
+	if *variant == "entry" || *variant == "setpolicy" {
+		os.Stdout.WriteString("SAVE-END ok\n") // Save() returned nil
+	} else {
+		os.Stdout.WriteString("SAVE-END done\n") // the API does not report the outcome of its internal save
+	}
 	return 0
 }
